@@ -345,6 +345,28 @@ func RunBatch(t *testing.T, bs BatchSpec) BatchResult {
 		if len(r.Viol) > 0 {
 			handle(spec, &r)
 		}
+		if fam.Sweep && r.Sweep > 0 && r.Inconcl == "" {
+			complete := true
+			for k := 1; k <= r.Sweep; k++ {
+				if time.Now().After(deadline.Add(20*time.Second)) || len(res.Found) >= 4 {
+					complete = false
+					break
+				}
+				sp := spec
+				sp.Param = k
+				rk := ExecRun(t, sp)
+				account(&rk)
+				res.SweepCases++
+				if len(rk.Viol) > 0 {
+					handle(sp, &rk)
+				}
+			}
+			if complete {
+				res.Exhaustive[fam.Name+":complete-sweeps"]++
+			} else {
+				res.Exhaustive[fam.Name+":partial-sweeps"]++
+			}
+		}
 	}
 	if bs.LastFile != "" {
 		os.Remove(bs.LastFile)
